@@ -79,7 +79,7 @@ def judge(ctx, kind, pkts, items, end, wit, want_end):
         mech, msg = f"sequence/{what}", f"yielded {len(got)} packets, expected {len(pkts)}; first difference at index {n_ok}"
     elif end != want_end:
         mech, msg = f"end/{end}", f"after the last packet the generator ended with {end!r}, expected {want_end!r}"
-    elif any(type(x) is not P.RawPacketData for x in items):
+    elif any(not isinstance(x, P.RawPacketData) for x in items):
         mech, msg = "class", "yielded object is not a RawPacketData"
     if mech:
         ctx.violation(f"{kind}/{mech}", msg, dict(wit, yielded=[g[:12] for g in got[:6]], expected=[p[:12] for p in pkts[:6]]))
